@@ -41,7 +41,7 @@ Theorem C18_indentation : forall ws1 raw ws2,
 Proof. exact line_parts_indentation. Qed.
 Print Assumptions C18_indentation.
 
-(* text without quotes, semicolons and vertical tabs is such a statement text; so is a complete quoted string, whatever it
+(* text without quotes and semicolons is such a statement text; so is a complete quoted string, whatever it
    contains (a semicolon inside it does not start a comment); and so is any concatenation of such texts *)
 Theorem C18_plain_text_balanced : forall s, forallb plain_char s = true -> balanced s = true.
 Proof. exact plain_balanced. Qed.
